@@ -224,9 +224,9 @@ theorem c17_src_zlabels_order {Z : Type} (o : PlotOps D A F M C Z) (zCoo : Optio
     (zVals : List (PZ Z)) (h : zCoo.isSome || multiVar) :
     ∃ it, Gen.plZLabels o none zCoo multiVar zVals = .ok it ∧
       takeLabels zVals.length it = some (zVals.map fun z => some (PZ.key o.str z)) := by
-  have h' : (!zCoo.isNone || multiVar) = true := by cases zCoo <;> simpa using h
   refine ⟨.finite (zVals.map fun z => some (PZ.key o.str z)), ?_, ?_⟩
-  · simp only [Gen.plZLabels, Gen.Default.plZLabels, bind, Except.bind, pure, Except.pure, h', if_true]
+  · simp only [Gen.plZLabels, Gen.Default.plZLabels, bind, Except.bind, pure, Except.pure]
+    cases zCoo <;> cases multiVar <;> simp_all
   · have := takeLabels_finite (zVals.map fun z => some (PZ.key o.str z))
     simpa using this
 
